@@ -109,6 +109,7 @@ def build(repo, canary=None):
     text = ("use vstd::prelude::*;\nuse std::io;\nverus! {\n" + spec + "\n" + fn + "\n" + COROLLARIES + "\n} // verus!\nfn main() {}\n")
     info["text"] = text
     info["plain_fn"] = cut
+    info["l1_sources"] = [cut]
     # obligations that must appear as verified functions
     info["expect_functions"] = ["quoted_string", "lemma_esc_plain_prefix", "lemma_unesc_esc", "lemma_esc_wf",
                                 "lemma_esc_identity_on_plain", "lemma_esc1_ascii", "lemma_esc_concat", "corollary_roundtrip"]
